@@ -14,9 +14,9 @@ import (
 
 // C07 — compaction never changes what a read at or above the compaction revision sees.
 
-var c07Keys = []string{prefix + "/a", prefix + "/a/b", prefix + "/b", prefix + "/c/x", prefix + "/skip/x", prefix + "/skip/sub/y", prefix + "-x/k", "/other/x"}
+var c07Keys = []string{prefix + "/a", prefix + "/a/b", prefix + "/b", prefix + "/c/x", prefix + "/skip/x", prefix + "/skip/sub/y", prefix + "-x/k", "/other/x", "/tenant-b/x"}
 
-var c07Skips = [][]string{nil, nil, {prefix + "/skip"}, {prefix + "/skip", prefix + "/c"}, {prefix + "/skip", prefix + "/skip/sub"}, {prefix + "-x"}}
+var c07Skips = [][]string{nil, nil, {prefix + "/skip"}, {prefix + "/skip", prefix + "/c"}, {prefix + "/skip", prefix + "/skip/sub"}, {prefix + "-x"}, {"/zzz"}, {prefix + "/skip", "/zzz"}}
 
 const c07Variants = 48
 
